@@ -197,6 +197,10 @@ def rule_keys_table(ctx):
 
 
 def run(ctx):
+    from ..rules import midi as _M4
+    _M4.rule_note_pairing(ctx)
+    from ..rules import extra as _X4
+    _X4.rule_ps13_tables(ctx)
     from ..rules import extra as _X3
     _X3.rule_total_processing_order(ctx)
     rule_F9b(ctx)
